@@ -63,3 +63,80 @@ Example C01_example :
   rib_query (rib_run us) 0 1 = [(7, false, 3); (8, true, 4)]%N /\
   rib_query (rib_run us) 0 2 = [(7, true, 5)]%N.
 Proof. vm_compute. repeat split; reflexivity. Qed.
+
+(* ------------------------------------------------------------------ *)
+(* End to end (Pipe/PipeCompose.v): the pipeline (BMP sessions, BGP sessions, ingress
+   register, RIB = PipeModel.world) against the property's own reading (an ideal RIB
+   keyed by wire identity = PipeModel.sworld), for EVERY history of operations.
+   Premises: [disciplined] - BMP router keys stay below the range the wire-identity
+   encoding reserves for BGP sessions; [fams_ok] - announcements name one of the four
+   families the RIB has; the history is shorter than the u32 id counter; [NoShare] - no
+   two wire identities were given one ingress id (excludes class K2 = known finding C02-1). *)
+From RV Require Import Pipe.PipeCompose.
+
+(* the pipeline's RIB is the run of the updates its steps report *)
+Theorem C01_pipeline_updates : forall ops, w_rib (run_world ops).1 = rib_run (world_updates ops).
+Proof. exact world_rib_is_run. Qed.
+Print Assumptions C01_pipeline_updates.
+
+(* the ideal RIB's entry of a wire identity = the last-event reading, at the id it was
+   given, of the updates the pipeline applied *)
+Theorem C01_pipeline_refines_ideal : forall ops x i f p,
+  disciplined ops = true -> fams_ok ops = true -> (N.of_nat (length ops) < two32 - 2)%N ->
+  NoShare (w_ids (run_world ops).1) ->
+  id_of (w_ids (run_world ops).1) x = Some i ->
+  s_rib (run_sworld ops).1 !! (f, p, x) = spec_lookup (evs_of (world_updates ops)) (f, p, i).
+Proof. exact pipe_refines_ideal_all. Qed.
+Print Assumptions C01_pipeline_refines_ideal.
+
+(* sharper: only the identity asked about must be the sole owner of its id; any history
+   (families unrestricted), keys of the four families *)
+Theorem C01_pipeline_refines_ideal_sole : forall ops x i f p,
+  disciplined ops = true -> (N.of_nat (length ops) < two32 - 2)%N -> (f < 4)%N ->
+  id_of (w_ids (run_world ops).1) x = Some i -> sole (w_ids (run_world ops).1) x i ->
+  s_rib (run_sworld ops).1 !! (f, p, x) = spec_lookup (evs_of (world_updates ops)) (f, p, i).
+Proof. exact pipe_refines_ideal_sole. Qed.
+Print Assumptions C01_pipeline_refines_ideal_sole.
+
+(* companion: a wire identity that never got an id has no entry in the ideal RIB,
+   and an id nobody was given has no route in the pipeline's RIB *)
+Theorem C01_pipeline_no_id_no_entry : forall ops x f p,
+  disciplined ops = true -> (N.of_nat (length ops) < two32 - 2)%N ->
+  id_of (w_ids (run_world ops).1) x = None -> s_rib (run_sworld ops).1 !! (f, p, x) = None.
+Proof. exact pipe_no_id_no_entry. Qed.
+Print Assumptions C01_pipeline_no_id_no_entry.
+
+Theorem C01_pipeline_no_owner_no_route : forall ops f p i,
+  disciplined ops = true -> (N.of_nat (length ops) < two32 - 2)%N ->
+  (forall x, id_of (w_ids (run_world ops).1) x <> Some i) ->
+  rib_lookup (w_rib (run_world ops).1) (f, p, i) = None.
+Proof. exact pipe_no_owner_no_route. Qed.
+Print Assumptions C01_pipeline_no_owner_no_route.
+
+(* the code's RIB shows for every wire identity exactly the property's answer, except that
+   an entry whose (family, id) a session-wide withdrawal ever hit stays withdrawn
+   (class K3 = known finding C03-1) *)
+Theorem C01_pipeline_rib_answer : forall ops x i f p,
+  disciplined ops = true -> fams_ok ops = true -> (N.of_nat (length ops) < two32 - 2)%N ->
+  NoShare (w_ids (run_world ops).1) ->
+  id_of (w_ids (run_world ops).1) x = Some i ->
+  rib_lookup (w_rib (run_world ops).1) (f, p, i) =
+  match s_rib (run_sworld ops).1 !! (f, p, x) with
+  | Some (s, a) => Some (s && negb (downed (evs_of (world_updates ops)) (f, p, i)), a)
+  | None => None
+  end.
+Proof. exact pipe_rib_answer_all. Qed.
+Print Assumptions C01_pipeline_rib_answer.
+
+(* a history with a BMP peer that flaps, a router that reconnects and a BGP session that
+   reconnects meets every premise; the one place where the two RIBs differ is K3 *)
+Example C01_pipeline_example :
+  disciplined compose_example = true /\ fams_ok compose_example = true /\
+  (N.of_nat (length compose_example) < two32 - 2)%N /\
+  NoShare (w_ids (run_world compose_example).1) /\
+  w_ids (run_world compose_example).1 = [((0, pA), 3); (bgp_wid 0 0, 4); (bgp_wid 0 1, 5)]%N /\
+  s_rib (run_sworld compose_example).1 !! (0, 1, (0, pA))%N = Some (true, 6%N) /\
+  rib_lookup (w_rib (run_world compose_example).1) (0, 1, 3)%N = Some (false, 6%N) /\
+  s_rib (run_sworld compose_example).1 !! (0, 2, bgp_wid 0 1)%N = Some (true, 5%N) /\
+  rib_lookup (w_rib (run_world compose_example).1) (0, 2, 5)%N = Some (true, 5%N).
+Proof. exact compose_example_ok. Qed.
